@@ -245,6 +245,17 @@ BackupRetMonitors(r, c) ==
                  exp == CallbackExpected(A, c.want)
              IN If(got # exp, {<<"CallbackWrong", <<got \ exp, exp \ got>> >>})
         ELSE {})
+  \* C03: what a backup that stopped (killed, or aborted by an error it returned) recorded is the new
+  \* content of EVERY path up to the last one it recorded -- no path below that point is missing.
+  \* (Entries skipped with a counted error are another matter: only runs without such errors.)
+  \cup (IF (r.crashed \/ r.res # "ok") /\ r.errors <= 0 /\ ~r.panic /\ b # -1 /\ b \in Bands(fs) /\ HeadOK(fs, b) /\ ~TailFile(fs, b)
+            /\ g.mode \in {"clean", "fault"} /\ ~g.damaged /\ \A n \in DOMAIN fs.bands[b].hunks : fs.bands[b].hunks[n].st = "ok"
+        THEN LET own == OwnEntries(fs, b)
+                 have == {own[i].p : i \in 1..Len(own)}
+                 lastp == IF own = <<>> THEN Root ELSE own[Len(own)].p
+                 must == IF own = <<>> THEN {} ELSE {p \in DOMAIN c.want : LessEq(p, lastp)}
+             IN If(have # must, {<<"InterruptedNotPrefix", <<b, must \ have, have \ must>> >>})
+        ELSE {})
   \cup If(r.res = "ok" /\ ~r.crashed /\ r.written_blocks # c.nblk, {<<"WrittenBlocksStat", <<r.written_blocks, c.nblk>> >>})
   \cup If(success /\ ~r.crashed /\ faultfree /\ b # -1 /\ g.torn = {},
           {<<"NotReused", p>> : p \in NotReused(c.fs0, fs, b)}
